@@ -22,7 +22,9 @@ Definition values (h : heap) : list bits := map (value h) (seq 0 (List.length (o
 '''
 
 CREATE = ['bin', 'hex', 'bytes', 'bytearray', 'memoryview', 'memoryview_ro', 'memoryview_slice_ro', 'bytes_kw_bytearray', 'bytes_kw_memoryview_ro', 'array', 'iter',
-          'bitarray', 'bitarray_kw', 'bitarray_little', 'uint', 'file', 'str', 'fromstring']
+          'bitarray', 'bitarray_kw', 'bitarray_little', 'uint', 'file', 'str', 'fromstring',
+          'kw_int', 'kw_uintle', 'kw_intne', 'kw_float', 'kw_ue', 'kw_sie', 'kw_oct', 'kw_bool',
+          'set_uint', 'set_intle', 'set_uie', 'set_se', 'set_hex', 'set_float', 'set_bytes', 'pack_uintle', 'pack_ue', 'build_uint', 'build_uie']
 EXTERNAL = {'bytearray', 'memoryview', 'memoryview_ro', 'memoryview_slice_ro', 'bytes_kw_bytearray', 'bytes_kw_memoryview_ro', 'array', 'bitarray', 'bitarray_kw', 'bitarray_little'}
 DERIVE = ['construct', 'bits_kw', 'copycopy', 'dotcopy', 'slice', 'add', 'invert', 'mul', 'and', 'andself', 'orself', 'xor', 'lshift', 'join', 'pack', 'readbits',
           'cut', 'split', 'unpack', 'dotbits', 'underscore_copy', 'radd_str', 'lshift_all', 'rshift_all', 'radd_lit_empty', 'add_empty', 'radd_empty']
@@ -47,7 +49,9 @@ def gen_cases(rng, tier):
                 n = rng.choice([8, 16, 24, 32])
                 how = rng.choice(CREATE)
                 if rng.random() < 0.1: n, how = 0, 'bin'          # an empty object (the empty-operand fast paths)
-                steps.append({'op': 'create', 'how': how, 'cls': rng.choice(CLASSES), 'bits': rand_bits(rng, n), 'reuse': rng.random() < 0.5})
+                prev = [x['bits'] for x in steps if x['op'] == 'create' and x['bits']]
+                bits_ = rng.choice(prev) if prev and n and rng.random() < 0.4 else rand_bits(rng, n)
+                steps.append({'op': 'create', 'how': how, 'cls': rng.choice(CLASSES), 'bits': bits_, 'reuse': rng.random() < 0.5})
                 nobj += 1
             elif r < 0.65:
                 steps.append({'op': 'derive', 'how': rng.choice(DERIVE), 'cls': rng.choice(CLASSES), 'src': rng.randrange(nobj)})
@@ -113,6 +117,23 @@ def run_impl(c):
                     elif how == 'bitarray_kw':
                         e = bitarray.bitarray(b); o = C(bitarray=e); externals[len(objs)] = e
                     elif how == 'uint': o = C(uint=int(b, 2), length=n)
+                    elif how.split('_')[0] in ('kw', 'set', 'pack', 'build') and how not in ('bytes_kw_bytearray', 'bytes_kw_memoryview_ro', 'bitarray_kw'):
+                        # a value of some dtype (derived from the bits) through the keyword, the property setter, pack or Dtype.build:
+                        # encoders must hand out a store of their own every time (also when the same value was encoded before)
+                        route, name = how.split('_')
+                        if c.get('lsb0') and name in ('ue', 'se', 'uie', 'sie'): name = 'uint'      # the exp-Golomb codes are refused under lsb0
+                        u = int(b, 2) if n else 0
+                        w = max(n, 8)
+                        val, length = {'int': (u - (1 << (w - 1)), w), 'uint': (u, w), 'uintle': (u, w), 'intle': (u - (1 << (w - 1)), w), 'intne': (u - (1 << (w - 1)), w),
+                                       'float': ((u % 2048) / 8.0, 32), 'ue': (u % 500, None), 'uie': (u % 500, None), 'se': (u % 500 - 250, None), 'sie': (u % 500 - 250, None),
+                                       'oct': (format(u, 'o'), None), 'hex': (format(u, 'x'), None), 'bool': (bool(u & 1), None), 'bytes': (raw or b'a', None)}[name]
+                        if route == 'kw': o = C(**{name: val}) if length is None else C(**{name: val, 'length': length})
+                        elif route == 'set':
+                            m = (bitstring.BitStream if st['cls'] in ('ConstBitStream', 'BitStream') else bitstring.BitArray)()
+                            setattr(m, name if length is None else f'{name}{length}', val)
+                            o = m if st['cls'] in ('BitArray', 'BitStream') else C(m)
+                        elif route == 'pack': o = C(pack(name if length is None else f'{name}:{length}', val))
+                        else: o = C(bitstring.Dtype(name, length).build(val) if length is not None else bitstring.Dtype(name).build(val))
                     elif how == 'file':
                         fd, path = tempfile.mkstemp(prefix='verif_c04_'); tmp.append(path)
                         with os.fdopen(fd, 'wb') as fh: fh.write(raw)
@@ -219,7 +240,8 @@ def oracle(c, obs):
             if a != b:
                 return (f"step {st} changed object #{i} ({b[0]}): {b[1]!r} -> {a[1]!r}; history so far: "
                         f"{[s for s in c['steps'][:c['steps'].index(st) + 1]]}")
-        if op == 'create' and len(after) == len(before) + 1 and after[-1][1] != st['bits'] and st['how'] not in ('str', 'fromstring'):
+        dtype_route = st.get('how', '').split('_')[0] in ('kw', 'set', 'pack', 'build') and st.get('how') not in ('bytes_kw_bytearray', 'bytes_kw_memoryview_ro', 'bitarray_kw')
+        if op == 'create' and len(after) == len(before) + 1 and after[-1][1] != st['bits'] and st['how'] not in ('str', 'fromstring') and not dtype_route:
             return f"create {st} gave {after[-1]}"
         # mutable objects never share a store with anything
         for i, rep in enumerate(part):
@@ -252,7 +274,7 @@ def coq_check(c, obs):
                 hit = 'None' if info['hit'] is None else f"(Some {info['hit']}%nat)"
                 ops.append(f"HFromCache {cl} {cbits(info['sbits'])} {hit}")
             else:
-                ops.append(f"HNew {cl} {cbits(st['bits'])}")
+                ops.append(f"HNew {COQ_CLS[after[len(before)][0]]} {cbits(after[len(before)][1])}")     # class and content as observed (dtype routes encode a value derived from the bits)
             nobj += 1
         elif op == 'derive':
             how = st['how']; src = f"{st['src']}%nat"
@@ -262,8 +284,8 @@ def coq_check(c, obs):
             if how == 'construct': ops.append(f"HConstruct {COQ_CLS[st['cls']]} {src}")
             elif how == 'bits_kw': ops.append(f"HBitsKw {COQ_CLS[st['cls']]} {src}")
             elif how in ('copycopy', 'dotcopy', 'andself', 'orself'): ops.append(f"HCopyCopy {src}")   # s & s / s | s take the `bs is self` shortcut: self.copy()
-            elif how == 'join' or (how == 'rshift_all' and before[st['src']][2] > 0):
-                # join (and >>, which starts from self.__class__(length=n)) builds on a store of its own that went through __init__ (flagged for the immutable classes),
+            elif how == 'join' or (how in ('rshift_all', 'lshift_all') and before[st['src']][2] > 0):
+                # join (and >>, which starts from self.__class__(length=n), and << by the whole length, whose empty _absolute_slice is self.__class__()) builds on a store of its own that went through __init__ (flagged for the immutable classes),
                 # then extended in place - the store flow of HNew, not of the object.__new__ derivations
                 ops.append(f"HNew {COQ_CLS[after[-1][0]]} {cbits(after[-1][1])}")
             else:
